@@ -64,6 +64,7 @@ type parser struct {
 	N      int
 	mask   []string
 	Depth  int
+	nest   int // recursion depth of doExpression and getType
 }
 
 func symAtPos(pos scanner.Position, symbol string) *token {
@@ -118,9 +119,6 @@ func (p *parser) Next() *token {
 
 func (p *parser) Expression(rbp int, mask ...string) *token {
 	p.Depth++
-	if p.Depth > maxNesting {
-		panicf("nested more than %d levels deep", maxNesting)
-	}
 	tmp := p.mask
 	p.mask = mask
 	tok := p.doExpression(rbp)
@@ -130,6 +128,12 @@ func (p *parser) Expression(rbp int, mask ...string) *token {
 }
 
 func (p *parser) doExpression(rbp int) *token {
+	// every recursion of the parser passes through here (some prefix operators call it directly)
+	p.nest++
+	defer func() { p.nest-- }()
+	if p.nest > maxNesting {
+		panicf("nested more than %d levels deep", maxNesting)
+	}
 	t := p.Token
 	p.Next()
 	left := getSymbol(t).Nud(p, t)
